@@ -31,6 +31,11 @@ func ToInterval(ls orb.LineString, df orb.DistanceFunc, dist float64) orb.LineSt
 		return nil
 	}
 
+	// degenerate case, nothing to measure
+	if len(ls) <= 1 {
+		return ls
+	}
+
 	// precomputes the total distance and intermediate distances
 	total, dists := precomputeDistances(ls, df)
 
